@@ -689,6 +689,8 @@ func newBusHarness(prog *busProgram) *busHarness {
 // the controller gives up after this many resumptions
 const busStepCap = 3000
 
+var busCasesRun, busCutCases int
+
 // body id and value threshold of the panic handler's body (Bus/BusModel.v: panic_body, panic_retry_below)
 const panicBody, panicRetryBelow = 90, 50
 
@@ -838,8 +840,16 @@ func runControlled(prog *busProgram, pick func([]who) who) (T, T, []string) {
 		}
 	}
 	cut := h.ctl.steps >= busStepCap
+	busCasesRun++
 	if cut {
 		tags = append(tags, "cut-at-step-cap")
+		// runaway programs (on a tree where, say, a filter that bounded a self-publishing handler is skipped) each cost
+		// thousands of controller steps and leave their goroutines parked, which slows every later case down; when they
+		// are frequent (never on a tree that follows the model: about 1 case in 10,000 is cut there) the run stops and
+		// the cases so far are reported
+		if busCutCases++; busCutCases >= 3 && busCutCases*20 >= busCasesRun {
+			stopRun = true
+		}
 	}
 	obs := C("Build_bobs", L(traces...), L(counts...), L(storeT...), L(unfinished...), Nat(h.closed), B(cut))
 	joined := strings.Join(tags, ",")
